@@ -4,9 +4,9 @@ From AQ Require Import lib.Base lib.Tok gen.C13Consts model.Builder proofs.Build
 Import ListNotations.
 Open Scope Z_scope.
 
-(* no op of the history raised BufferWriteError (it cannot under the caller discipline except in the
-   one-byte sample-padding corner; the theorem does not need the discipline itself) *)
-Definition not_bw (o : outcome) : bool := match o with OBufferWrite => false | _ => true end.
+(* no op of the history raised BufferWriteError or CryptoError (both leave _end_packet half-way: the padding flag
+   already cleared, the packet not written; the theorem does not need the caller discipline itself) *)
+Definition not_bw (o : outcome) : bool := match o with OBufferWrite | OCrypto => false | _ => true end.
 Fixpoint no_buffer_error (c : cfg) (s : st) (ops : list op) : bool :=
   match ops with
   | [] => true
@@ -59,9 +59,9 @@ Proof.
 Qed.
 
 Lemma end_packet_Q s p o s' :
-  Q s -> b_cur s = Some p -> end_packet c s p = (o, s') -> o <> OBufferWrite -> Q s'.
+  Q s -> b_cur s = Some p -> end_packet c s p = (o, s') -> o <> OBufferWrite -> o <> OCrypto -> Q s'.
 Proof.
-  intros (H0&H1&H2&H3) Hc E NE. destruct (H1 p Hc) as [P0 P1].
+  intros (H0&H1&H2&H3) Hc E NE NC. destruct (H1 p Hc) as [P0 P1].
   assert (Hnone : forall (PP : pkt -> Prop) q, @None pkt = Some q -> PP q) by (intros; discriminate).
   unfold end_packet in E.
   destruct (b_tell s - p_start p >? p_hdr p) eqn:SZ.
@@ -83,6 +83,8 @@ Proof.
   assert (PZ : psz = b_tell s - p_start p + Z.max padding 0).
   { destruct (padding >? 0) eqn:G in PS; apply pair_equal_spec in PS; destruct PS as [<- <-]; lia. }
   clear PS.
+  destruct (match c_cmax c with Some m => psz + AEAD_TAG_SIZE >? m | None => false end) eqn:CE;
+    [inversion E; subst; congruence|]. clear CE.
   destruct (p_start p + (psz + AEAD_TAG_SIZE) >? c_mds c) eqn:EE; [inversion E; subst; congruence|].
   assert (HG : (g_hasinit s || is_init) = true -> pad1 = true).
   { unfold pad1. intros G. apply orb_true_iff in G. destruct G as [G|G]; [rewrite (H2 G)|rewrite G, orb_true_r]; reflexivity. }
@@ -103,9 +105,9 @@ Proof.
     all: try (rewrite (PA1 eq_refl)); try exact HG; auto; unfold AEAD_TAG_SIZE; lia.
 Qed.
 
-Lemma end_current_Q s o s' : Q s -> end_current c s = (o, s') -> o <> OBufferWrite -> Q s'.
+Lemma end_current_Q s o s' : Q s -> end_current c s = (o, s') -> o <> OBufferWrite -> o <> OCrypto -> Q s'.
 Proof.
-  unfold end_current. intros HQ E NE. destruct (b_cur s) eqn:Hc; [eapply end_packet_Q; eauto|inversion E; subst; auto].
+  unfold end_current. intros HQ E NE NC. destruct (b_cur s) eqn:Hc; [eapply end_packet_Q; eauto|inversion E; subst; auto].
 Qed.
 
 End Pad.
